@@ -156,6 +156,27 @@ pub fn profile_for(prop: &str) -> Profile {
     }
 }
 
+/// The property-specific "non-trivial" rule (quoted in the evidence file's `rule`).
+pub fn nontrivial_for(prop: &str, c: &std::collections::BTreeMap<String, u64>, flag: bool) -> bool {
+    let has = |k: &str| c.get(k).copied().unwrap_or(0) > 0;
+    let any = |pre: &str| c.iter().any(|(k, v)| k.starts_with(pre) && *v > 0);
+    let fault = || c.iter().any(|(k, v)| *v > 0 && k.starts_with("outcome:") && !k.contains(":ok"));
+    match prop {
+        "C01" => has("admissions_at_limit_or_after_wait"),
+        "C02" => (fault() || any("abandon:")) && has("quiescent_points_with_blocked_getters"),
+        "C03" => any("abandon:") || any("c03cell:"),
+        "C04" => fault(),
+        "C06" => has("closes") && flag,
+        "C07" => has("shrinks") && has("admissions"),
+        "C08" => has("pops_with_choice"),
+        "C09" => has("retain_partial") || has("takes"),
+        "C10" => any("result:timeout") || has("result:no_runtime") || any("c10:class"),
+        "C11" => has("status_exact_checks") && (has("quiescent_points_with_blocked_getters") || has("shrinks") || any("abandon:")),
+        "C13" => has("reissues"),
+        _ => flag,
+    }
+}
+
 pub struct HistoryOut {
     pub violations: Vec<Violation>,
     pub foreign: usize,
@@ -308,8 +329,8 @@ pub fn run_history(rt: &tokio::runtime::Runtime, p: &Profile, seed: u64, idx: u6
         hash: h.0,
         sched,
         states: STATES.with(|s| std::mem::take(&mut *s.borrow_mut())),
+        nontrivial: nontrivial_for(p.prop, &wl.counters, wl.nontrivial),
         counters: std::mem::take(&mut wl.counters),
-        nontrivial: wl.nontrivial,
         events: wl.callbacks + wl.action_no,
         cfg: cfg_desc,
     }
